@@ -5,12 +5,14 @@ import ThriftVerif.Gen.Std
   * AST side  — what `parser.Thrift` holds for one IDL file (`File`), and the include structure as the
     code sees it: `inc.Reference` pointers, i.e. a finite tree `Ast` (the parser rejects include cycles).
   * `describe : File → FileDesc` — descriptor_creater.go, field by field, including what Go maps do:
-    annotations / `Includes` (keyed by include *base name*) / `Namespaces` (keyed by language) are built by
-    repeated `m[k] = v` (`mapSet`: the last write wins), `ValueMap` is keyed by pointer (all pairs kept).
+    annotations / `Includes` (keyed by include *base name*) are built by repeated `m[k] = v` (`mapSet`: the last
+    write wins), `Namespaces` (keyed by language) keeps the first entry per language, `ValueMap` is keyed by
+    pointer (all pairs kept).
   * `toGoVal` — the Go object a descriptor is, in the vocabulary of `Gen.Schema` (what meta.Marshal walks);
     `marshal`/`unmarshalVal` = the shared schema-driven binary codec (`Gen.Std.write/read`) at the schema
     regenerated from descriptor.thrift.
-  * registry — descriptor_register.go (`RegisterAST` → `regAST`, `registerGlobalUUID` → `uuid*`),
+  * registry — descriptor_register.go (`RegisterAST` → `regAST`, `registerGlobalUUID` → `uuid*`; nested constant
+    values are the only descriptors it does not stamp),
     descriptor_lookup.go / descriptor-extend.go (`getDescriptor`, `Lookup*`, `TypeDescriptor.Get*Descriptor`,
     `GetFieldByName/ById`, `GetMethodByName`, `GetParent`), descriptor_register_go_type.go (`registerGoTypes`).
   * `forget : File → FileFacts`, `factsOf : FileDesc → FileFacts` — the facts property C15 lists.
@@ -55,6 +57,16 @@ def mapSet {β : Type} : List (Str × β) → Str → β → List (Str × β)
 def mapGet {β : Type} : List (Str × β) → Str → Option β
   | [], _ => none
   | (k', v') :: r, k => if k' = k then some v' else mapGet r k
+
+/-- `if _, ok := m[k]; !ok { m[k] = v }` -/
+def mapSetNew {β : Type} (m : List (Str × β)) (k : Str) (v : β) : List (Str × β) :=
+  match mapGet m k with
+  | some _ => m
+  | none => mapSet m k v
+
+/-- a map built by `for … { if _, ok := m[key(x)]; !ok { m[key(x)] = val(x) } }`: the first entry per key stays -/
+def mapOfListFirst {α β : Type} (key : α → Str) (val : α → β) (xs : List α) : List (Str × β) :=
+  xs.foldl (fun m x => mapSetNew m (key x) (val x)) []
 
 /-- a map built by `for … { m[key(x)] = val(x) }` -/
 def mapOfList {α β : Type} (key : α → Str) (val : α → β) (xs : List α) : List (Str × β) :=
@@ -408,7 +420,7 @@ def descService (path : Str) (s : Service) : ServiceDesc :=
 def describe (f : File) : FileDesc :=
   { filepath := f.filename,
     includes := mapOfList baseName id f.includes,
-    namespaces := mapOfList Namespace.lang Namespace.name f.namespaces,
+    namespaces := mapOfListFirst Namespace.lang Namespace.name f.namespaces,
     services := f.services.map (descService f.filename),
     structs := f.structs.map (descStruct f.filename),
     exceptions := f.exceptions.map (descStruct f.filename),
@@ -607,7 +619,7 @@ def uuidCVD (uuid : Str) : CVD → CVD
 def uuidField (uuid : Str) (f : FieldDesc) : FieldDesc :=
   { f with extra := addExtra uuid f.extra, ty := uuidTy uuid f.ty, dflt := f.dflt.map (uuidCVD uuid) }
 
-/-- method args / throws: arg, arg.Type (not the default value) -/
+/-- throws: e, e.Type (not the default value; method args are stamped like struct fields) -/
 def uuidArg (uuid : Str) (f : FieldDesc) : FieldDesc :=
   { f with extra := addExtra uuid f.extra, ty := uuidTy uuid f.ty }
 
@@ -615,7 +627,7 @@ def uuidStruct (uuid : Str) (s : StructDesc) : StructDesc :=
   { s with extra := addExtra uuid s.extra, fields := s.fields.map (uuidField uuid) }
 
 def uuidMethod (uuid : Str) (m : MethodDesc) : MethodDesc :=
-  { m with extra := addExtra uuid m.extra, response := uuidTyO uuid m.response, args := m.args.map (uuidArg uuid),
+  { m with extra := addExtra uuid m.extra, response := uuidTyO uuid m.response, args := m.args.map (uuidField uuid),
            throws := m.throws.map (uuidArg uuid) }
 
 def uuidService (uuid : Str) (s : ServiceDesc) : ServiceDesc :=
@@ -629,9 +641,9 @@ def uuidEnum (uuid : Str) (e : EnumDesc) : EnumDesc :=
 def uuidTypedef (uuid : Str) (t : TypedefDesc) : TypedefDesc :=
   { t with extra := addExtra uuid t.extra, ty := uuidTy uuid t.ty }
 
-/-- constants: c and c.Value — NOT c.Type (the code does not visit it) -/
+/-- constants: c, c.Type and (the top node of) c.Value -/
 def uuidConst (uuid : Str) (c : ConstDesc) : ConstDesc :=
-  { c with extra := addExtra uuid c.extra, value := uuidCVD uuid c.value }
+  { c with extra := addExtra uuid c.extra, ty := uuidTy uuid c.ty, value := uuidCVD uuid c.value }
 
 /-- registerGlobalUUID -/
 def registerUUID (uuid : Str) (fd : FileDesc) : FileDesc :=
